@@ -211,6 +211,10 @@ func ClassifyCheck(w gen.World, r m.Request, exp refsem.Outcome, allowed bool, e
 	if err == nil && !allowed && (exp == refsem.True || exp == refsem.Unknown) && UserAndWildcardOnSameObjectNotBothEffective(w, r) {
 		return SigSortedReadDedup
 	}
+	if err == nil && allowed && exp == refsem.False && hasDifference(w.Model) && UserAndWildcardOnSameObjectNotBothEffective(w, r) {
+		// the same dropped object, in the subtracted branch of an exclusion: the request is granted
+		return SigSortedReadDedup
+	}
 	if err == nil && allowed && exp == refsem.False && RecursiveRelationWithForeignUsersetTuple(w, r) {
 		return SigRecursiveIgnoresUsersetRelation
 	}
@@ -368,6 +372,20 @@ func UserAndWildcardOnSameObjectNotBothEffective(w gen.World, r m.Request) bool 
 		}
 	}
 	return false
+}
+
+func hasDifference(mo *m.Model) bool {
+	found := false
+	for _, td := range mo.Types {
+		for _, rel := range td.Relations {
+			rel.Rewrite.Walk(func(n *m.Rewrite) {
+				if n.Kind == m.Difference {
+					found = true
+				}
+			})
+		}
+	}
+	return found
 }
 
 // SortedSet returns the sorted distinct strings.
